@@ -15,7 +15,7 @@ func init() {
 		Decided: "C12.1 the raw store's Put is invoked only inside Wrapper.Put and only after Check(i)=nil for the same item; Del only inside Wrapper.Get; the configured raw store flows only into NewWrapper; " +
 			"C12.2 Check=nil implies encoded value ≤ 1000 bytes and, for mutable items, salt ≤ 64 bytes ∧ Verify(k, salt, seq, encoded v, sig) on the same item; the failing edges return 205 / 207 / 206; signer and verifier build the same buffer; " +
 			"C12.3 targets hash k‖salt (mutable) or the encoded value (immutable), same predicate on both sides; C12.4 the get handler serves v, k, sig, seq of the one stored item and the put handler builds the item field-for-field from the arguments and relays the store's KRPC error; " +
-			"C12.5 the client hands its caller only values dominated by hash-match or key-match ∧ Verify.",
+			"C12.5 the client hands its caller only values dominated by hash-match or key-match ∧ Verify, and writes state shared between replies only under those facts; C12.6 Wrapper.Put returns the validator's (or the backend's) own error value on every path and the put handler sends the asserted krpc.Error, so 205/206/207 (and 301/302) reach the sender.",
 		NotDecided: "ed25519 / SHA-1 correctness; 'highest seq wins' selection among accepted replies; bencode re-encoding fidelity of v.",
 		Rules: []*Rule{
 			{ID: "C12.1", Doc: "validation dominates storage", Floor: 4, Run: c12r1},
